@@ -269,12 +269,13 @@ type c13Env struct {
 	grantBase            map[string]string
 	rolesDeleted         map[string]bool // roles deleted since the previous pull ...
 	rolesRecreated       map[string]bool // ... and created again since
+	rolesCreated         map[string]bool // roles created (PUT answered 201) since the previous pull
 }
 
 // track is called after every change of the model: it records what happened between two pulls.
 func (e *c13Env) track() {
 	if e.lostCh == nil {
-		e.lostCh, e.rolesDeleted, e.rolesRecreated = map[string]bool{}, map[string]bool{}, map[string]bool{}
+		e.lostCh, e.rolesDeleted, e.rolesRecreated, e.rolesCreated = map[string]bool{}, map[string]bool{}, map[string]bool{}, map[string]bool{}
 		e.grantChanged, e.grantBase = map[string]bool{}, map[string]string{}
 		for _, c := range e.chans {
 			e.grantBase[c] = e.m.grantKey(c)
@@ -413,6 +414,9 @@ func (e *c13Env) putRole(r string) {
 	e.track()
 	if e.rolesDeleted[r] {
 		e.rolesRecreated[r] = true
+	}
+	if n := len(e.ops); n > 0 && e.ops[n-1].Status == 201 {
+		e.rolesCreated[r] = true
 	}
 }
 
@@ -993,6 +997,61 @@ func (e *c13Env) classifyStale(d *c13Doc, last, now *c13Snap) string {
 	return ""
 }
 
+// classifyMissing recognises the history shapes behind "the user can see a document the client does not hold".
+func (e *c13Env) classifyMissing(d *c13Doc, last, now *c13Snap) string {
+	if last != nil && last.Visible[d.ID] {
+		return ""
+	}
+	// newly visible: are all its channels reached only through roles created since the previous pull, with a
+	// sync-function grant (access() to the role or role() to the user) older than the role involved?
+	all, any, viaDoc := true, false, false
+	for _, c := range d.Ch {
+		if !c13Has(now.UserCh, c) {
+			continue
+		}
+		if now.ChanDirect[c] {
+			all = false
+		}
+		for _, r := range now.ChanRoles[c] {
+			if e.rolesCreated[r] {
+				any = true
+			} else {
+				all = false
+			}
+		}
+	}
+	for _, src := range now.Sources[d.ID] {
+		if strings.HasPrefix(src, "doc-role/") || strings.HasSuffix(src, "/role-docgrant") {
+			viaDoc = true
+		}
+	}
+	if all && any && viaDoc {
+		return "access-through-role-created-since-previous-pull|role-or-its-channel-granted-by-an-older-document"
+	}
+	return ""
+}
+
+// c13Through coarsens a list of grant sources to "direct", "role", "direct+role" (or "none").
+func c13Through(srcs []string) string {
+	direct, role := false, false
+	for _, x := range srcs {
+		if strings.HasPrefix(x, "user-") {
+			direct = true
+		} else {
+			role = true
+		}
+	}
+	switch {
+	case direct && role:
+		return "direct+role"
+	case direct:
+		return "direct"
+	case role:
+		return "role"
+	}
+	return "none"
+}
+
 // judge compares the replica with the model after a completed pull.
 func (e *c13Env) judge(obs *c13PullObs, limit int) {
 	run, cl, m := e.run, e.cl, e.m
@@ -1095,20 +1154,23 @@ func (e *c13Env) judge(obs *c13PullObs, limit int) {
 			if last != nil && last.Visible[d.ID] {
 				prev = "visible-at-previous-pull"
 			}
-			sig := fmt.Sprintf("C13|%s|visible-document-missing-after-pull|%s|doc=%s|via=%s|rows=%s|limit=%s", cl.Name, prev, kind, strings.Join(now.Sources[d.ID], "+"), e.rowsFor(d.ID), lim)
+			sig := fmt.Sprintf("C13|%s|visible-document-missing-after-pull|unclassified|%s|doc=%s|through=%s|limit=%s", e.proto(), prev, kind, c13Through(now.Sources[d.ID]), lim)
+			if shape := e.classifyMissing(d, last, now); shape != "" {
+				sig = fmt.Sprintf("C13|%s|visible-document-missing-after-pull|%s", e.proto(), shape)
+			}
 			e.violation("replica-equals-visible-set", sig, fmt.Sprintf("history %d: after the pull the user can see %s (rev %s, channels %v, via %v) but the client does not hold it", e.idx, d.ID, want, d.Ch, now.Sources[d.ID]), e.witness(extra()))
 		case !now.Visible[d.ID] && has:
 			lostVia := "never-visible-at-a-pull"
 			if last != nil && len(last.Sources[d.ID]) > 0 {
-				lostVia = strings.Join(last.Sources[d.ID], "+")
+				lostVia = c13Through(last.Sources[d.ID])
 			}
-			sig := fmt.Sprintf("C13|%s|document-left-view-without-removal-or-revocation|doc=%s|held-via=%s|rows=%s|limit=%s", cl.Name, kind, lostVia, e.rowsFor(d.ID), lim)
+			sig := fmt.Sprintf("C13|%s|document-left-view-without-removal-or-revocation|unclassified|doc=%s|held-through=%s|limit=%s", e.proto(), kind, lostVia, lim)
 			if shape := e.classifyStale(d, last, now); shape != "" {
 				sig = fmt.Sprintf("C13|%s|document-left-view-without-removal-or-revocation|%s", e.proto(), shape)
 			}
 			e.violation("replica-equals-visible-set", sig, fmt.Sprintf("history %d: the user cannot see %s any more (deleted=%v channels=%v user channels=%v) but the client still holds rev %s: it was silently dropped", e.idx, d.ID, d.Exists && d.Deleted, d.Ch, now.UserCh, held), e.witness(extra()))
 		case now.Visible[d.ID] && has && held != want:
-			sig := fmt.Sprintf("C13|%s|stale-revision-held-after-pull|doc=%s|via=%s|rows=%s|limit=%s", cl.Name, kind, strings.Join(now.Sources[d.ID], "+"), e.rowsFor(d.ID), lim)
+			sig := fmt.Sprintf("C13|%s|stale-revision-held-after-pull|unclassified|doc=%s|through=%s|limit=%s", e.proto(), kind, c13Through(now.Sources[d.ID]), lim)
 			e.violation("replica-equals-visible-set", sig, fmt.Sprintf("history %d: the client holds %s of %s, current is %s", e.idx, held, d.ID, want), e.witness(extra()))
 		}
 	}
@@ -1122,16 +1184,16 @@ func (e *c13Env) judge(obs *c13PullObs, limit int) {
 			}
 		}
 		if d == nil {
-			e.violation("revocation-entries", "C13|"+cl.Name+"|revocation-for-unknown-document", "revoked entry for "+id, e.witness(extra()))
+			e.violation("revocation-entries", "C13|"+e.proto()+"|revocation-for-unknown-document", "revoked entry for "+id, e.witness(extra()))
 			continue
 		}
 		if now.Visible[id] {
-			sig := fmt.Sprintf("C13|%s|revocation-sent-for-visible-document|doc=%s|via=%s|limit=%s", cl.Name, e.docKind(d, last), strings.Join(now.Sources[id], "+"), lim)
+			sig := fmt.Sprintf("C13|%s|revocation-sent-for-visible-document|doc=%s|through=%s|limit=%s", e.proto(), e.docKind(d, last), c13Through(now.Sources[id]), lim)
 			e.violation("revocation-entries", sig, fmt.Sprintf("history %d: revoked entry for %s although the user can see it (channels %v via %v)", e.idx, id, d.Ch, now.Sources[id]), e.witness(extra()))
 		}
 		fr := e.rt.SendUserRequest("GET", "/{{.keyspace}}/"+id, "", e.user)
 		if fr.Code == 200 {
-			sig := fmt.Sprintf("C13|%s|revoked-document-still-fetchable|doc=%s|limit=%s", cl.Name, e.docKind(d, last), lim)
+			sig := fmt.Sprintf("C13|%s|revoked-document-still-fetchable|doc=%s|limit=%s", e.proto(), e.docKind(d, last), lim)
 			e.violation("revocation-entries", sig, fmt.Sprintf("history %d: %s was announced as revoked but GET as the user -> 200", e.idx, id), e.witness(extra()))
 		} else {
 			run.Count("revoked_docs_fetch_refused", 1)
@@ -1141,7 +1203,7 @@ func (e *c13Env) judge(obs *c13PullObs, limit int) {
 	cl.Last = now
 	cl.Pulls++
 	e.roleDeletedSincePull, e.flapSincePull, e.opsSincePull = false, false, 0
-	e.lostCh, e.rolesDeleted, e.rolesRecreated, e.grantChanged, e.grantBase = nil, nil, nil, nil, nil
+	e.lostCh, e.rolesDeleted, e.rolesRecreated, e.rolesCreated, e.grantChanged, e.grantBase = nil, nil, nil, nil, nil, nil
 	e.track()
 }
 
